@@ -1,10 +1,10 @@
 CONSTANTS
-  Keys = {1, 2, 3, 4, 5}
-  MaxTime = 1
+  Keys = {1, 2, 3}
+  MaxTime = 3
   Cap0 = 0
   Faults = FALSE
-  ExportMode = "fixed"
-  CapMode = "asCoded"
+  ExportMode = "asCodedLE"
+  CapMode = "fixed"
   GetMode = "get"
   Emit = FALSE
 INIT Init
